@@ -523,6 +523,27 @@ func togoGen(g *Gen) {
 		g.Emit("%s", togoLine("conv", r, &tnode{tok: "H", tn: r.name, id: 1}, "-"))
 		g.Emit("%s", togoLine("echo", r, &tnode{tok: "H", tn: r.name, id: 1}, "-"))
 		g.Count("grid fixed-ill-formed")
+		// a record of ANOTHER registered type handed to the method (C10-05): empty, and with one
+		// string field set (the field tables of two structs can fit each other by accident)
+		for oi := range togoRoots {
+			o := &togoRoots[oi]
+			if o == r {
+				continue
+			}
+			g.Emit("%s", togoLine("echo", r, &tnode{tok: "H", tn: o.name, id: 1}, "-"))
+			ost := reflect.TypeOf(o.mk()).Elem()
+			for fi := 0; fi < ost.NumField(); fi++ {
+				if f := ost.Field(fi); f.Type.Kind() == reflect.String {
+					key := f.Tag.Get("json")
+					if key == "" {
+						key = f.Name
+					}
+					g.Emit("%s", togoLine("echo", r, &tnode{tok: "H", tn: o.name, id: 1, keys: []string{"k" + codes([]byte(key))}, kids: []*tnode{atom("s97")}}, "-"))
+					break
+				}
+			}
+			g.Count("grid echo record-of-another-type")
+		}
 	}
 	// 2. generated values
 	nConv, nEcho, nBad := 1500, 600, 900
